@@ -83,7 +83,7 @@ SPEC = {
     "props_module": PROPS_MODULE,
     "required": ["macro_propagates", "macro_returns_first_error", "builder_model_is_reference", "builder_atomic",
                  "builder_accepts_iff", "builder_appends", "builder_errors", "builder_never_panics", "builder_sequences",
-                 "no_panic_partial", "no_panic_reexecute_partial", "no_panic_stabilizer_partial", "exec_either_representation_partial",
+                 "no_panic_partial", "no_panic_reexecute_partial", "no_panic_stabilizer_partial", "no_panic_stabilizer_unconditional", "reps_same_constructor_unconditional", "exec_either_representation_partial",
                  "reps_same_constructor_partial", "exports_never_panic_partial", "export_input_is_the_circuit", "openqasm_table_is_current",
                  "neg_zero_shots", "neg_repeated_qubit", "measure_all_short_same_error", "peek_all_long_same_error",
                  "measure_all_len_rejected_identically", "neg_cbit_ge_64",
